@@ -324,7 +324,7 @@ type genCtx struct {
 }
 
 func newGenCtx(thorough bool) *genCtx {
-	g := &genCtx{thorough: thorough, bigCap: 16 * mib, slowCap: mib, dLimits: []int64{4 * kib, 64 * kib, mib}, dLarge: []int64{16 * mib}}
+	g := &genCtx{thorough: thorough, bigCap: 8 * mib, slowCap: mib, dLimits: []int64{4 * kib, 64 * kib, mib}, dLarge: []int64{4 * mib}}
 	if thorough {
 		g.bigCap, g.slowCap = 64*mib, 4*mib
 		g.dLimits = []int64{4 * kib, 32 * kib, 64 * kib, 256 * kib, mib}
